@@ -61,6 +61,28 @@ fn get_doc_comment_for_parameter(parameter: &GrammarParameter) -> Option<DocComm
         })
 }
 
+/// Returns a [`DocComment`] describing the provided return member if one is present.
+///
+/// Like parameters, return members can't have doc-comments applied to them, and use '@returns' tags instead.
+/// A single return value is unnamed, so it's described by a '@returns' tag without an identifier,
+/// whereas each element of a return tuple is described by a '@returns' tag that has a matching identifier.
+fn get_doc_comment_for_return_member(return_member: &GrammarParameter) -> Option<DocComment> {
+    let operation = return_member.parent();
+    let operation_comment = operation.comment()?;
+    let is_return_tuple = operation.return_type.len() > 1;
+
+    operation_comment.returns.iter()
+        .find(|returns_tag| match &returns_tag.identifier {
+            Some(identifier) => is_return_tuple && identifier.value == return_member.identifier(),
+            None => !is_return_tuple,
+        })
+        .map(|returns_tag| returns_tag.message.value.iter().map(Into::into).collect())
+        .map(|message| DocComment {
+            overview: message,
+            see_tags: Vec::new(),
+        })
+}
+
 /// Helper function to convert the result of `tag.linked_entity()` into an [`EntityId`].
 fn convert_doc_comment_link(link_result: Result<&dyn Entity, &GrammarIdentifier>) -> EntityId {
     match link_result {
@@ -260,7 +282,7 @@ impl SliceFileContentsConverter {
                 .parameters
                 .last()
                 .is_some_and(|parameter| parameter.borrow().is_streamed),
-            return_type: operation.return_members().into_iter().map(|e| self.convert_parameter(e)).collect(),
+            return_type: operation.return_members().into_iter().map(|e| self.convert_return_member(e)).collect(),
             has_streamed_return: operation
                 .return_type
                 .last()
@@ -280,6 +302,13 @@ impl SliceFileContentsConverter {
             tag: parameter.tag.as_ref().map(|integer| integer.value as i32),
             data_type: self.convert_type_ref(parameter.data_type()),
         }
+    }
+
+    fn convert_return_member(&mut self, return_member: &GrammarParameter) -> Field {
+        // Return members are converted like parameters, except that their doc-comments come from '@returns' tags.
+        let mut converted = self.convert_parameter(return_member);
+        converted.entity_info.comment = get_doc_comment_for_return_member(return_member);
+        converted
     }
 
     // This returns a `Symbol` because the `enum` grammar construct can map to either a `BasicEnum` or a `VariantEnum`.
